@@ -404,6 +404,66 @@ S.append(Schema('nest_skip_mix', [Rule('R', Seq(fa(), Star(Seq(Lit('y'), F('n', 
     extract=J(one(0, 'v.a'), '                for n in v.n.iter() { o.f[1].push(n.b); }'),
     note="a:A {'y' n:N} $ with @no_skip_ws N = b:B ['y']: a skipping closure around a non-skipping rule"))
 
+# ---------------------------------------------------------------------------------------------- fourth batch
+S.append(Schema('ws_choice_nullable', [Rule('R', Seq(fa(), Grp(Alt(Lit('y'), Seq()))), export=True, position=(0, 1))], 'R', 'A', n=4, alphabet='x y',
+    props=('C08', 'C01', 'C09'),
+    extract=J(one(0, 'v.a'), '                o.x[0] = v.position.start as i32; o.x[1] = v.position.end as i32;'),
+    note="@position R = a:A ('y' | ) in a skipping rule: when the empty alternative is taken no whitespace is consumed"))
+
+S.append(Schema('ws_choice_opt_arm', [Rule('R', Seq(fa(), Grp(Alt(Opt(Lit('y')), Lit('x')))), export=True)], 'R', 'A', n=4, alphabet='x y',
+    props=('C08', 'C01'), extract=J(one(0, 'v.a')),
+    note="a:A (['y'] | 'x'): an inline choice whose first arm is an optional"))
+
+S.append(Schema('check_position', [Rule('R', Alt(Seq(F('m', 0, Ref('M')), fc()), fd()), skip=False, export=True),
+                                   Rule('M', Seq(fa(), Opt(B)), skip=False, position=(0, 1), checks=[(0, 'chk_m', 'first')])], 'R', 'ABCD', n=2, nchk=1,
+    props=('C14', 'C09'), support='    pub fn chk_m(v: &M) -> bool { check(0, v.a) }\n',
+    extract=J('                if let Some(m) = &v.m { o.f[0].push(m.a); o.x[0] = m.position.start as i32; o.x[1] = m.position.end as i32; }', opt(2, 'v.c'), opt(3, 'v.d')),
+    note='@position @check M = a:A [B]: the check applies to a @position struct rule as well; a failed check backtracks'))
+
+S.append(Schema('seq_rebind', [Rule('R', Seq(fa(), Star(Seq(fb(), fa())), fb()), skip=False, export=True)], 'R', 'AB', n=4, nonzero='B',
+    props=('C02', 'C03', 'C01'),
+    extract=J(ty('v.a', 'Vec<A>'), ty('v.b', 'Vec<B>'), vec(0, 'v.a'), vec(1, 'v.b')),
+    note='a:A {b:B a:A} b:B: a multi-field part re-binds one field and first binds another, which a later part extends'))
+
+S.append(Schema('string_insensitive', [Rule('R', Seq(F('v', 0, Ref('V')), Opt(fa(1))), skip=False, export=True),
+                                       Rule('V', Seq(Lit('yz', insensitive=True, src="i'yZ'")), skip=False, string=(0, 1))], 'R', 'A', n=3, alphabet='yzYZ',
+    props=('C02', 'C09'),
+    extract=J(opt(1, 'v.a'), '                o.x[0] = 0; o.x[1] = v.v.len() as i32;', '                if v.v.as_bytes() != &t.sym[0..v.v.len().min(t.n)] { o.x[2] = -1; }'),
+    note="@string V = i'yZ': the value is the input slice consumed, in the input's own case"))
+
+S.append(Schema('opt_choice_fields', [Rule('R', Seq(Opt(Alt(fa(), fb())), fc()), skip=False, export=True)], 'R', 'ABC', n=3,
+    props=('C03', 'C02', 'C01'),
+    extract=J(ty('v.a', 'Option<A>'), ty('v.b', 'Option<B>'), opt(0, 'v.a'), opt(1, 'v.b'), one(2, 'v.c')),
+    note='[a:A | b:B] c:C: a choice of differently named fields inside an optional that is part of a sequence'))
+S.append(Schema('choice_arm_choice_fields', [Rule('R', Alt(Grp(Alt(fa(), fb())), fc()), skip=False, export=True)], 'R', 'ABC', n=3,
+    props=('C03', 'C02'),
+    extract=J(opt(0, 'v.a'), opt(1, 'v.b'), opt(2, 'v.c')),
+    note='(a:A | b:B) | c:C: a choice of differently named fields as one arm of an outer choice'))
+
+S.append(Schema('position_string_utf8', [Rule('R', Seq(F('p', 0, Ref('P')), Opt(fc())), skip=False, export=True),
+                                         Rule('P', Seq(A, Opt(B)), position=(0, 1), string=(2, 3), skip=False)], 'R', 'ABC', n=3, alphabet='x\u00e9',
+    props=('C09', 'C04'),
+    extract=J(opt(2, 'v.c'), '                o.x[0] = v.p.position.start as i32; o.x[1] = v.p.position.end as i32;',
+              '                o.x[2] = v.p.position.start as i32; o.x[3] = v.p.string.len() as i32;',
+              '                if v.p.position.end > t.n || v.p.string.as_bytes() != &t.sym[v.p.position.start..v.p.position.end] { o.x[4] = -1; }'),
+    note='@string @position over input with multi-byte characters: the range is in bytes'))
+
+S.append(Schema('include_same_name_other_body', inc_rules(False)[:1] + [Rule('I', Seq(fb(), Lit('x')), skip=False)], 'R', 'ABC', n=3, alphabet='x y',
+    props=('C13',), extract=INC_EXTRACT,
+    note="the grammar of include_noskip with I = b:B 'x' instead of b:B 'y' (compiled by the same generator process): each grammar's include uses its own rule body"))
+
+KEYWORDS = ["as", "break", "const", "continue", "else", "enum", "extern", "false", "fn", "for", "if", "impl", "in", "let", "loop", "match",
+            "mod", "move", "mut", "pub", "ref", "return", "static", "struct", "trait", "true", "type", "unsafe", "use", "where", "while",
+            "async", "await", "dyn", "abstract", "become", "box", "do", "final", "macro", "override", "priv", "typeof", "unsized", "virtual",
+            "yield", "try"]
+S.append(Schema('keywords_all', [], 'R', '', expect='compile', props=('C03',), kani=False,
+    raw_ebnf=("@export\nR = " + ' '.join('[%s:K]' % k for k in KEYWORDS) + ' ' + ' '.join('[f_%s:%s]' % (k, k) for k in KEYWORDS) + ";\nK = 'k';\n"
+              + ''.join("%s = 'k' x:K;\n" % k for k in KEYWORDS)),
+    note='every Rust keyword that can be a raw identifier, as field name and as rule name'))
+S.append(Schema('field_named_like_unit_rule', [], 'R', '', expect='compile', props=('C03',), kani=False, isolated=True,
+    raw_ebnf="@export\nR = [tok:tok] o:Other;\ntok = 't';\nOther = 'o';\n",
+    note='a field with the same name as a field-less (unit struct) rule'))
+
 # ---------------------------------------------------------------------------------------------- extern / context / tracing
 S.append(Schema('extern_ctx', [Rule('R', Seq(fa(), Opt(fb())), export=True)], 'R', 'AB', n=3, alphabet='x ', user_ctx='crate::ops::Ctx',
     props=('C14',), extract=J(one(0, 'v.a'), opt(1, 'v.b')),
